@@ -123,6 +123,11 @@ func implementsUnpacker(t reflect.Type) bool {
 		return false
 	}
 
+	// an interface type names no value an Unpack method could be called on
+	if t.Kind() == reflect.Interface {
+		return false
+	}
+
 	for _, tUnpack := range tUnpackers {
 		if t.Implements(tUnpack) {
 			return true
